@@ -9,6 +9,8 @@ VARIABLE hist
 
 Incl1 == {<<0>>, <<1>>, <<2>>}
 Incl2 == {<<a, b>> : a \in 0..2, b \in 0..2}
+\* two outpoints with one spender each: the independent transactions 1 and 3
+Incl4 == {<<a, b>> : a \in 0..1, b \in 0..1}
 
 Ev(a, i, t, n, hint, inc, blk) == [a |-> a, i |-> i, t |-> t, n |-> n, hint |-> hint, inc |-> inc, blk |-> blk]
 Rec(e) == hist' = Append(hist, e)
